@@ -30,10 +30,19 @@ pub fn cut_foreign_syn() -> Part {
     use crate::real;
     use crate::util::guarded;
     let mut part = Part::new("isolation/cut-foreign-syn");
-    part.rule = "a real node of cluster `own` (knowing one member with one key, and owning a key) receives every prefix (including the whole) of the bytes of a SYN of cluster `foreign` whose digest lists two foreign members, for (own, foreign) in {a/b, a/ab, ab/a, prod/prod-eu, prod-eu/prod, \"\"/a, a/\"\", a/A}; each prefix either fails to decode, or is answered by exactly BadCluster and leaves the node's members, key-values, heartbeats of other members and live/dead sets untouched; non-trivial = prefixes that decode".into();
-    let pairs: [(&str, &str); 8] = [("a", "b"), ("a", "ab"), ("ab", "a"), ("prod", "prod-eu"), ("prod-eu", "prod"), ("", "a"), ("a", ""), ("a", "A")];
+    part.rule = "a real node of cluster `own` (knowing one member with one key, and owning a key) receives every prefix (including the whole) of the bytes of a SYN of cluster `foreign` whose digest lists two foreign members, for (own, foreign) in {a/b, a/ab, ab/a, prod/prod-eu, prod-eu/prod, \"\"/a, a/\"\", a/A, and ids of 65-256 bytes with multi-byte characters (one straddling byte 64)}; each prefix either fails to decode, or is answered by exactly BadCluster and leaves the node's members, key-values, heartbeats of other members and live/dead sets untouched; non-trivial = prefixes that decode".into();
+    // long ids too: 63 ASCII bytes followed by a 2-byte character (a character straddles byte 64), 255 and
+    // 256 bytes, a 4-byte character at the front
+    let long1 = format!("{}é-cluster", "x".repeat(63));
+    let long2 = "é".repeat(127) + "x";
+    let long3 = "😀".repeat(64);
+    let pairs: Vec<(String, String)> = [("a", "b"), ("a", "ab"), ("ab", "a"), ("prod", "prod-eu"), ("prod-eu", "prod"), ("", "a"), ("a", ""), ("a", "A")]
+        .iter()
+        .map(|(a, b)| (a.to_string(), b.to_string()))
+        .chain([("a".to_string(), long1.clone()), (long1.clone(), "a".to_string()), ("a".to_string(), long2.clone()), (long2, long1), ("prod".to_string(), long3)])
+        .collect();
     let mut n_cases = 0u64;
-    for (own, foreign) in pairs {
+    for (own, foreign) in pairs.iter().map(|(a, b)| (a.as_str(), b.as_str())) {
         let f1 = Id::v4("foreign-1", 1, 12_001);
         let f2 = Id::v4("foreign-2", 1, 12_002);
         let syn = codec::encode(&Msg::Syn { digest: vec![DigestEntry { id: f1.clone(), heartbeat: 7, gc: 0, mv: 3 }, DigestEntry { id: f2.clone(), heartbeat: 9, gc: 1, mv: 2 }], cluster_id: foreign.to_string() });
